@@ -32,6 +32,7 @@ Full statement / proved / missing
   of the accumulator" + C01 + `C04_common_fam` (commonType is an upper bound on the family `Ty.Fam` of inferred types and stays inside it);
   `C04_ptype_of_family` — the same for values with type values, conditional on a family on which commonType is an upper bound;
   `C04_generalize_partial` — the sixth law for every type without Variant (and with finite Float bounds: the excluded case is the finding);
+  `C04_accepts_sound` — the third law with no hypothesis on the detailed type (rule off; same values as `C04_dtype`);
   `C04_dtype` — THE SECOND LAW, unconditional, for every value without type values and without a hash keyed by strings only with the
   empty string among them;
 * missing: the first law for values that hold TYPE values (commonType of two `Type[..]` recurses into arbitrary types: Tuple / Variant
@@ -110,6 +111,15 @@ theorem C04_accepts_sound_partial (cfg : Cfg) (hl : ∀ s, (cfg.lower s).length 
     (hd : inst cfg false (dtype cfg false v) v = true)
     (h : asg cfg false t (dtype cfg false v) = true) : inst cfg false t v = true :=
   sound_all cfg false hl _ t _ v (Nat.le_refl _) ⟨ft, fd, wt, wd, us, ok, tv⟩ h hd
+
+/-- THIRD LAW without hypotheses on the detailed type (rule off): for a value without type values and without empty-string keys,
+    whatever fragment type accepts its detailed type contains the value -/
+theorem C04_accepts_sound (cfg : Cfg) (hl : ∀ s, (cfg.lower s).length = s.length) (t : Ty) (v : Val)
+    (ft : t.Frag false) (wt : Ty.WF cfg t) (ok : v.OK) (tv : Val.TyOK cfg v)
+    (nt : Val.AllTyp (fun _ => False) v) (ne : Val.NoEmptyKey v)
+    (h : asg cfg false t (dtype cfg false v) = true) : inst cfg false t v = true :=
+  have g := dtype_good cfg hl v.w v (Nat.le_refl _) ok tv nt ne
+  C04_accepts_sound_partial cfg hl t v ft g.1 wt g.2.1 g.2.2 ok tv (C04_dtype cfg false hl v ok tv nt ne) h
 
 /-! ### commonType: the branches that are bounds by themselves -/
 theorem C04_common_unit (cfg : Cfg) (sfh : Bool) (n : Nat) (b : Ty) : commonF cfg sfh (n + 1) .unit b = b := by
